@@ -60,9 +60,23 @@ def cRaisesIff : Input → Trace → Bool
      | _ => o.raised == a.mismatch.isSome && o.continued == a.mismatch.isNone)
   | .assert _, _ => false
   | _, _ => true
+def allRet (a : AssertIn) : Bool := a.after == .ret && a.tearDown == .ret && a.cleanups.all (· == .ret)
+/-- the run is reported as a problem: addFailure, or addError (an error that has to propagate, e.g. a
+KeyboardInterrupt, outranks every other exception of the run) -/
+def failureClass (o : Outcome) : Bool := o == .failure || o == .error
+
+/-- a mismatch recorded by `expectThat` makes the test fail once it has finished — whatever else the test
+goes on to do (return, skip, expected failure, unexpected success, failure, error, interrupt; in the body,
+`tearDown` or a cleanup): never success / skip / expected failure / unexpected success.  (What a later
+stage does to the `MismatchError` that `assertThat` raised is the subject of C03; here only: if nothing
+else happens the run is a failure.) -/
 def cFailsAfterwards : Input → Trace → Bool
   | .assert a, .assert o =>
-    (if a.mismatch.isSome then o.outcome == .failure else o.outcome == .success) &&
+    (if a.mismatch.isSome then
+       (match a.api with
+        | .expectThat => failureClass o.outcome
+        | _ => !allRet a || o.outcome == .failure)
+     else (!allRet a || o.outcome == .success)) &&
     (match a.api with
      | .expectThat => o.forceFailure == a.mismatch.isSome
      | _ => true)
